@@ -39,7 +39,7 @@ ASSUMPTIONS = [
     "the scheduler does not model locks: cm_colors takes none; a stall is a HARNESS-ERROR, never a verdict",
     "text results embedding the sandbox path are normalised to <SBX>",
 ]
-PROBES = ["H_runs", "H_ops", "H_probes_after_change", "H_cli_ops", "H_bulk_ops", "H_show_save_ops", "H_slot_reuse", "H_repeat_same_op", "H_alias_family_ops", "H_bulk_position_probes", "H_flood_ops", "H_heavy_distinct_fix_ops", "H_fed_back_result_ops", "H_host_warning_filter_windows", "H_ops_under_warnings_as_errors", "H_clock_jump_windows", "T_runs_under_jumping_clock",
+PROBES = ["H_runs", "H_ops", "H_probes_after_change", "H_cli_ops", "H_bulk_ops", "H_show_save_ops", "H_slot_reuse", "H_repeat_same_op", "H_alias_family_ops", "H_bulk_position_probes", "H_cli_file_position_probes", "H_flood_ops", "H_heavy_distinct_fix_ops", "H_fed_back_result_ops", "H_host_warning_filter_windows", "H_ops_under_warnings_as_errors", "H_clock_jump_windows", "T_runs_under_jumping_clock",
           "T_runs", "T_threads", "T_ops", "T_steps", "T_switches", "T_hot_line_hits", "T_switch_in_optimisation", "T_mode_different",
           "T_mode_same", "T_mode_shared_object", "T_runs_with_switch_inside_call", "T_shared_object_first_touch_in_threads", "P_runs", "P_ops", "P_interpreters", "P_interpreters_sharing_home_and_tmp", "H_cli_ops_over_an_already_processed_directory"]
 
@@ -118,7 +118,13 @@ def _cli_op(rng):
             txt += "\n.xref%d{color:%s}" % (rng.randrange(50), rng.choice(("var(--x-shared)", "var(--x-shared, #777)", "var(--undefined0, #767676)", "var(--undefined1)")))
         if rng.random() < 0.2:
             txt = "\ufeff" + txt  # saved by an editor that writes a byte-order mark
+        if rng.random() < 0.3:
+            # a page background declared in the stylesheet itself (it is not what --default-bg is about)
+            txt = "%s{background-color:%s}\n" % (rng.choice(("body", "html", ":root", "html, body")), rng.choice(("#111111", "#0b1020", "#fefefe", "navy", "rgb(30, 30, 30)"))) + txt
         tree[name] = txt
+    if rng.random() < 0.12:
+        # one file of the run cannot be read as UTF-8 (a legacy cp1252 stylesheet): reported and skipped
+        tree[rng.choice(("legacy.css", "sub/old.css", "0bad.css"))] = "HEX:2f2a20e9202a2f0a2e617b636f6c6f723a233737377d0a"
     op = {"op": "cli", "tree": tree, "settings": settings, "order_key": rng.randrange(1 << 20)}
     if rng.random() < 0.25:
         # the directory was already processed once, with other settings (its outputs and report are still there)
@@ -349,7 +355,8 @@ def run_cli_op(op):
             p = os.path.join(tdir, name)
             os.makedirs(os.path.dirname(p), exist_ok=True)
             with open(p, "wb") as f:
-                f.write(op["tree"][name].encode("utf-8"))
+                v = op["tree"][name]
+                f.write(bytes.fromhex(v[4:]) if v.startswith("HEX:") else v.encode("utf-8"))
         if op.get("prior_settings"):
             cli_run.cli_exec(root, "tree", op["prior_settings"], cwd_rel="cwd", order_key=op.get("order_key"))
             # (the earlier run's REPORT is removed: a run that changes nothing writes no report and rightly leaves an old one alone)
@@ -361,7 +368,10 @@ def run_cli_op(op):
         snap = seams.snapshot(root)
         files = {k: (v[1].decode("utf-8", "replace") if v[0] == "f" else list(v)) for k, v in snap.items()
                  if k.endswith("_cm.css") or k.endswith("cm_colors_report.html")}
-        return {"ret": enc([res["exit"], res["out"], res["err"], sorted(files.items())])}
+        out = {"ret": enc([res["exit"], res["out"], res["err"], sorted(files.items())])}
+        if res.get("cwd_after") != res.get("cwd_before"):
+            out["cwd_moved"] = [res.get("cwd_before"), res.get("cwd_after")]
+        return out
     finally:
         base.rm_tree(root)
 
@@ -451,6 +461,15 @@ def _exec_H(trace):
         if op["op"] == "bulk" and len(op["pairs"]) > 1 and not op.get("save") and not op.get("flood"):
             for entry in op["pairs"]:
                 apiops.oracle({"op": "bulk", "pairs": [entry], "mode": op.get("mode"), "vr": op.get("vr")}, cache_one)
+    # "at any position": a stylesheet processed as one of several in a CLI run must come out as when it is processed alone
+    # (its position in the run, and what was processed before it, are history); alone-runs are taken now, in pristine forks
+    cli_alone = {}
+    for op in trace["ops"]:
+        if op["op"] == "cli" and 2 <= len(op["tree"]) <= 4 and not op.get("prior_settings"):
+            for name in sorted(op["tree"]):
+                if name.endswith(".css") and not name.endswith("_cm.css"):
+                    one = {"op": "cli", "tree": {name: op["tree"][name]}, "settings": op["settings"], "order_key": op.get("order_key")}
+                    cli_alone[base.canon(one)] = base.in_fork(run_cli_op, one, timeout=200)
     root = base.new_sandbox("c15h")
     changed_seen = False
     nontrivial = False
@@ -521,6 +540,13 @@ def _exec_H(trace):
             if r.get("mutated"):
                 vio.append({"kind": "object-mutated", "detail": {"index": i, "op": _brief(op), "mutated": r["mutated"]},
                             "features": {"kind": "object-mutated", "op": op["op"]}})
+            if r.get("cwd_moved"):
+                # the call left the PROCESS in another working directory: every relative path a later call is given (and the
+                # place a later report goes to) now means something else - history dependence through process-global state.
+                # (the harness re-anchors the working directory before each operation, so it is reported here, at the source)
+                vio.append({"kind": "history-dependence", "detail": {"index": i, "op": _brief(op), "note": "the call changed the process working directory",
+                                                                     "cwd_before": r["cwd_moved"][0], "cwd_after": r["cwd_moved"][1]},
+                            "features": {"kind": "history-dependence", "op": op["op"]}})
             # "at any position in a bulk list": element k of a bulk result must be what a one-entry bulk call
             # for that entry returns in a pristine process
             if op["op"] == "bulk" and "ret" in r and len(op["pairs"]) > 1 and not op.get("save") and not op.get("flood"):
@@ -534,6 +560,22 @@ def _exec_H(trace):
                             vio.append({"kind": "position-dependence", "detail": {"index": i, "entry_index": k, "entry": entry, "list": op["pairs"],
                                                                                    "in_list": repr(got_list[k]), "alone": repr(alone[0])},
                                         "features": {"kind": "position-dependence", "op": "bulk"}})
+            if op["op"] == "cli" and "ret" in r and 2 <= len(op["tree"]) <= 4 and not op.get("prior_settings"):
+                files_here = dict((k, v) for k, v in dec(r["ret"])[3])
+                for name in sorted(op["tree"]):
+                    if not (name.endswith(".css") and not name.endswith("_cm.css")):
+                        continue
+                    one = {"op": "cli", "tree": {name: op["tree"][name]}, "settings": op["settings"], "order_key": op.get("order_key")}
+                    ref = cli_alone.get(base.canon(one))
+                    if ref is None or "ret" not in ref:
+                        continue
+                    files_alone = dict((k, v) for k, v in dec(ref["ret"])[3])
+                    key = "tree/" + name[:-4] + "_cm.css"
+                    bump("H_cli_file_position_probes")
+                    if files_here.get(key) != files_alone.get(key):
+                        vio.append({"kind": "position-dependence", "detail": {"index": i, "file": name, "in_run_of": sorted(op["tree"]),
+                                                                               "in_run": _brief_res(files_here.get(key)), "alone": _brief_res(files_alone.get(key))},
+                                    "features": {"kind": "position-dependence", "op": "cli"}})
             if _colour_changed(op, r):
                 changed_seen = True
     finally:
